@@ -16,7 +16,7 @@ func init() {
 		ID:   "C15",
 		Rule: "one case = (codec, garbage prefix of 0-2 strings, frame A shape, loss subset of A's packets, frame B shape); the delivered packets of A then all packets of B go into one depacketizer and B's outputs are compared with a fresh depacketizer that sees B only; non-trivial = at least one packet of A was lost and at least one delivered",
 		Assumptions: []string{
-			"H264 frames A: 12 shapes of up to 10 packets mixing single NAL units, STAP-A and FU-A trains (reference encoder); frames B: single / STAP-A / FU-A train / FU-A train + single / FU-A trains whose start, middle or end fragment carries no payload octets (also among the A shapes); Annex-B and AVC output",
+			"H264 frames A: 12 shapes of up to 10 packets mixing single NAL units, STAP-A and FU-A trains (reference encoder); frames B: single / STAP-A / FU-A train / FU-A train + single / FU-A trains whose start, middle or end fragment carries no payload octets, and a single FU-A packet with both S and E set (also among the A shapes); Annex-B and AVC output",
 			"AV1 frames A: 8 OBU sequences packetized by AV1Payloader at small MTUs into up to 10 packets with Z/Y chains; frames B start with Z=0, with and without N=1",
 			"large abandoned fragments: a fragmented unit / OBU of 70 KB, 1 MiB + 1 KB and 3 MB whose end (or start, or one middle fragment) is lost, at MTU 1200, followed by each frame-B shape; for H264 also abandoned units that leave 2^16..2^22 minus {0,1,600,1197,1199} bytes buffered, followed by a frame B with full-size fragments",
 			"ALL loss subsets of A (2^n, n <= 10) delivered in order; thorough: a second damaged frame (H264 shapes 3, s2, E; the first three packets of three AV1 shapes) behind the first, the loss subsets running over both (n <= 13), and garbage prefixes also for frames of up to 8 packets; garbage: every sequence of up to 2 strings before frame A and 0-1 string between the delivered part of A and frame B, from an 8 (H264) / 12 (AV1) string corpus (nil, empty, orphan fragments, truncated aggregation, start of a never-finished fragment)",
@@ -53,6 +53,11 @@ func c15H264Frame(shape string, seed int) [][]byte {
 				cuts = append(cuts, 2*k)
 			}
 			out = append(out, ref.H264Fragment(u, cuts)...)
+		case ch == 'X':
+			// one FU-A packet with both S and E set (not allowed by RFC 6184, but a unit that begins
+			// with its own start marker all the same)
+			u := ref.H264Unit(5, 3, 4, s)
+			out = append(out, append([]byte{u[0]&0x60 | 28, 0xC0 | u[0]&0x1F}, u[1:]...))
 		case ch == 'E' || ch == 'M' || ch == 'Z':
 			// FU-A train of three fragments of which the start / middle / end one carries
 			// no payload octets (RFC 6184 5.8: an FU payload MAY be empty)
@@ -66,8 +71,8 @@ func c15H264Frame(shape string, seed int) [][]byte {
 }
 
 var (
-	c15H264A = []string{"2", "3", "5", "s3", "3s", "a4", "23", "32s", "s2a2", "334", "6s3", "a22s2", "E", "M2"}
-	c15H264B = []string{"s", "a", "3", "2s", "as3", "E", "M", "Z", "sE"}
+	c15H264A = []string{"2", "3", "5", "s3", "3s", "a4", "23", "32s", "s2a2", "334", "6s3", "a22s2", "E", "M2", "X2"}
+	c15H264B = []string{"s", "a", "3", "2s", "as3", "E", "M", "Z", "sE", "X", "Xs"}
 )
 
 type c15Depack interface {
